@@ -12,7 +12,8 @@
 (*   VerifySig                Signature::verify_multiattr                    *)
 (*   ProofGen / ProofVerify   PoKSignature::proof_gen / proof_verify         *)
 (* An attribute is an atom: 0 is the value 0, 1 and 2 are two different     *)
-(* non-zero values (the replayer maps them to random lm-bit integers).      *)
+(* non-zero values (the replayer maps them to random lm-bit integers), 3 is *)
+(* the largest admissible value 2^lm - 1.                                   *)
 (* What a (blind) signature signs is its CONTENT: for every position the    *)
 (* multiset of non-zero atoms in the exponent of that position's base --    *)
 (* the hidden part of the commitment the issuer was given plus the          *)
@@ -29,9 +30,9 @@ EXTENDS Integers, Sequences, FiniteSets, TLC, Json
 CONSTANTS MaxN,      \* attribute counts 1 .. MaxN
           MaxDev     \* deviations from the honest protocol per behaviour
 
-NZ == {1, 2}                         \* non-zero atoms
+NZ == {1, 2, 3}                      \* non-zero atoms (3 is the largest attribute value, 2^lm - 1)
 Alt(a) == IF a = 1 THEN 2 ELSE 1     \* another (non-zero) value
-Vectors == {<< 1 >>, << 0 >>, << 1, 2 >>, << 0, 1 >>, << 1, 1 >>, << 1, 0, 2 >>, << 2, 1, 0 >>}
+Vectors == {<< 1 >>, << 0 >>, << 3 >>, << 1, 2 >>, << 0, 1 >>, << 1, 1 >>, << 3, 1 >>, << 1, 0, 2 >>, << 2, 1, 0 >>, << 1, 3, 0 >>}
 Creds == {v \in Vectors : Len(v) <= MaxN}
 Pos(n) == 0 .. n - 1
 
@@ -230,7 +231,7 @@ DoPresent ==
 PK == NObj
 DoPVerify ==
   /\ pc = "pverify"
-  /\ \E how \in {"same", "revealed_changed", "other_U", "n_plus_1"} :
+  /\ \E how \in {"same", "revealed_changed", "other_U", "n_plus_1", "n_plus_1_no_spare_bases"} :
        LET o  == objs[PK]
            n  == Len(o.ms)
            rs == Pos(n) \ o.U
@@ -239,7 +240,8 @@ DoPVerify ==
            V  == IF how = "other_U" THEN V2 ELSE o.U
            rv0 == Vals(RevOf(o.ms, V))
            rv == IF how = "revealed_changed" /\ Len(rv0) >= 1 THEN [rv0 EXCEPT ![1] = Alt(@)] ELSE rv0
-           nn == IF how = "n_plus_1" THEN n + 1 ELSE n
+           nn == IF how \in {"n_plus_1", "n_plus_1_no_spare_bases"} THEN n + 1 ELSE n
+           nb == IF how = "n_plus_1" THEN n + 1 ELSE n            \* bases handed to the verifier
            applicable == CASE how = "revealed_changed" -> Len(rv0) >= 1
                            [] how = "other_U" -> V2 # o.U
                            [] OTHER -> TRUE
@@ -248,7 +250,7 @@ DoPVerify ==
            ok == o.ok /\ how = "same"
        IN  /\ applicable
            /\ Dev(IF how = "same" THEN 0 ELSE 1)
-           /\ Log(Rec("ProofVerify", [spok |-> PK, rv |-> rv, U |-> IxSeq(V), n |-> nn], B2S(ok)))
+           /\ Log(Rec("ProofVerify", [spok |-> PK, rv |-> rv, U |-> IxSeq(V), n |-> nn, nb |-> nb], B2S(ok)))
   /\ pc' = "done" /\ UNCHANGED << objs, cred >>
 
 Next == Start \/ DoCommit \/ DoTrusted \/ DoProve \/ DoIssue \/ LogIssue \/ Branch \/ DoUnblind \/ DoVerify
